@@ -116,7 +116,13 @@ func c01Run(in []string) []string {
 			vu.Stat("order_kind_" + strconv.Itoa(kind%8))
 		}
 		order := refh.Order(sc, kind, seed)
-		inst := refh.NewInst(sc)
+		// every instance of the case gets its own cache configuration (store roots cache / index caches):
+		// the scenario's, then tiny3, zero, tiny2, default, tiny4, one, tiny1, ... so that roots caches
+		// smaller than one frame's roots meet different arrival orders within one agreement case
+		ic := *sc
+		ic.CfgV = []int{sc.CfgV, 6, 1, 5, 3, 7, 2, 4, 8, 0}[i%10]
+		vu.Stat("inst_caches_" + strconv.Itoa(ic.CfgV))
+		inst := refh.NewInst(&ic)
 		ids := map[int]*tdag.TestEvent{}
 		name := map[hash.Event]int{}
 		rej := 0
